@@ -373,7 +373,7 @@ Proof. destruct l; simpl; split; congruence. Qed.
 
 Lemma chk_wf_ok h : chk_wf h = true <->
   (forall x, In x (h_sends h) -> s_b x < s_a x /\ (s_res x = 0 \/ s_res x = 1)) /\
-  NoDup (map s_v (h_sends h)) /\ h_err h = false /\ h_stop_b h < h_stop_r h /\ h_stop_r h < h_stop_e h.
+  NoDup (map s_v (h_sends h)) /\ h_err h = false /\ h_stop_b h < h_stop_r h /\ h_stop_b h < h_stop_e h.
 Proof.
   unfold chk_wf. rewrite !andb_true_iff, forallb_forall, nodupb_NoDup, negb_true_iff, !Z.ltb_lt.
   split.
@@ -522,11 +522,21 @@ Proof.
     apply forallb_forall. intros x Hx. apply memz_In in E. specialize (H eq_refl d y x Hd Hy E Hx). lia.
 Qed.
 
+Lemma chk_batch_ok h : chk_batch h = true <->
+  (is_confl (h_pol h) = false -> h_cap h > 0 -> forall d, In d (h_delivs h) -> zlen (d_vals d) <= h_cap h).
+Proof.
+  unfold chk_batch. rewrite !orb_true_iff, forallb_forall. split.
+  - intros [[H|H]|H] Hc Hp d Hd; [congruence|lia|]. specialize (H d Hd). lia.
+  - intros H. destruct (is_confl (h_pol h)); [left; left; reflexivity|].
+    destruct (Z.ltb_spec 0 (h_cap h)) as [Hc|Hc]; [right|left; right; reflexivity].
+    intros d Hd. specialize (H eq_refl ltac:(lia) d Hd). lia.
+Qed.
+
 Theorem history_ok_iff h : pushq_history_ok h = true <-> HistoryOK h.
 Proof.
   unfold pushq_history_ok. rewrite !andb_true_iff.
-  rewrite chk_wf_ok, chk_once_ok, chk_fifo_ok, chk_times_ok, chk_cap_ok, chk_refuse_ok, chk_after_stop_ok, chk_all_ok, chk_latest_ok.
+  rewrite chk_wf_ok, chk_once_ok, chk_fifo_ok, chk_times_ok, chk_cap_ok, chk_refuse_ok, chk_after_stop_ok, chk_all_ok, chk_latest_ok, chk_batch_ok.
   split.
-  - intros ((((((((H1 & H2) & H3) & H4) & H5) & H6) & H7) & H8) & H9). constructor; assumption.
-  - intros [H1 H2 H3 H4 H5 H6 H7 H8 H9]. exact (conj (conj (conj (conj (conj (conj (conj (conj H1 H2) H3) H4) H5) H6) H7) H8) H9).
+  - intros (((((((((H1 & H2) & H3) & H4) & H5) & H6) & H7) & H8) & H9) & H10). constructor; assumption.
+  - intros [H1 H2 H3 H4 H5 HB H6 H7 H8 H9]. exact (conj (conj (conj (conj (conj (conj (conj (conj (conj H1 H2) H3) H4) H5) H6) H7) H8) H9) HB).
 Qed.
